@@ -4,6 +4,8 @@
 # then stores it under /verif/seeded/<seed-id>/.
 set -u
 WT=$1; OUT=$2; ID=$3
+# never work on the agent's own OUT directory: `git clean` below would delete it
+KEEP=/tmp/seedkeep.$$; rm -rf $KEEP; cp -r "$OUT" $KEEP; OUT=$KEEP
 export CARGO_NET_OFFLINE=true
 LOC=$(python3 -c "import json;print(json.load(open('$OUT/meta.json')).get('demo_location','tests/demo.rs'))")
 cd "$WT" || exit 2
@@ -17,3 +19,4 @@ git apply -R "$OUT/patch.diff"
 echo "== demo without patch (must pass)"; cargo test --offline $PKG --test demo 2>&1 | grep -E "test result|panicked" | head -3
 rm -f "$LOC"; rmdir "$(dirname "$LOC")" 2>/dev/null
 mkdir -p /verif/seeded/$ID && cp "$OUT/patch.diff" "$OUT/demo.rs" "$OUT/meta.json" /verif/seeded/$ID/
+rm -rf $KEEP
